@@ -764,3 +764,31 @@ Definition check_pcgls_as_cgls (n : nat) (A : list (list Q)) (b y0 : list Q) (P 
   let fwd' := fun y => qmatvec Am (pinv y) in let adj' := fun z => pinvT (qmattvec n Am z) in
   is_inverse n (qmat P) Pi &&
   check_mapped_iterates 0 (q_cgls_step fwd' adj' 0%Qc) pinv (q_cgls_init fwd' adj' (qvec b) 0%Qc (qvec y0)) obs.
+
+(* --- result translation of L_BFGS_B.solve and LS.solve (third deepening round): what SciPy returned -> (solution, info) --- *)
+(* fmin_l_bfgs_b returns (x, f, d) with d = {grad, task, funcalls, nit, warnflag} *)
+Record lb_result := mk_lbr { lbr_x : list Q; lbr_f : Q; lbr_grad : list Q; lbr_task : string; lbr_funcalls : Z; lbr_nit : Z; lbr_warnflag : Z }.
+Record lb_info := mk_lbi { lbi_success : Z; lbi_message : string; lbi_func : Q; lbi_grad : list Q; lbi_nit : Z; lbi_nfev : Z }.
+Definition lbfgsb_translate (r : lb_result) : list Q * lb_info :=
+  let '(s, m) := lbfgsb_status (lbr_warnflag r) (lbr_task r) in
+  (lbr_x r, mk_lbi s m (lbr_f r) (lbr_grad r) (lbr_nit r) (lbr_funcalls r)).
+(* least_squares returns an OptimizeResult; LS.solve reads success, message, fun, jac, nfev and x *)
+Record ls_result := mk_lsr { lsr_x : list Q; lsr_fun : list Q; lsr_jac : list (list Q); lsr_nfev : Z; lsr_success : bool; lsr_message : string }.
+Record ls_info := mk_lsi { lsi_success : bool; lsi_message : string; lsi_func : list Q; lsi_jac : list (list Q); lsi_nfev : Z }.
+Definition ls_result_translate (r : ls_result) : list Q * ls_info :=
+  (lsr_x r, mk_lsi (lsr_success r) (lsr_message r) (lsr_fun r) (lsr_jac r) (lsr_nfev r)).
+(* the `jac` argument least_squares receives: the user's callable, or SciPy's default scheme '2-point' when jacfun is None
+   (repaired: fixes/C16_ls_default_jacobian.diff, applied) *)
+Inductive ls_jac := LsCallable | LsTwoPoint.
+Definition ls_jac_arg (jacfun_given : bool) : ls_jac := if jacfun_given then LsCallable else LsTwoPoint.
+Definition ls_jac_eqb (a b : ls_jac) : bool := match a, b with LsCallable, LsCallable | LsTwoPoint, LsTwoPoint => true | _, _ => false end.
+
+Definition check_lbfgsb_result (r : lb_result) (obs_x : list Q) (obs : lb_info) : bool :=
+  let '(mx, mi) := lbfgsb_translate r in
+  ql_eqb mx obs_x && Z.eqb (lbi_success mi) (lbi_success obs) && String.eqb (lbi_message mi) (lbi_message obs) &&
+  Qeq_bool (lbi_func mi) (lbi_func obs) && ql_eqb (lbi_grad mi) (lbi_grad obs) && Z.eqb (lbi_nit mi) (lbi_nit obs) && Z.eqb (lbi_nfev mi) (lbi_nfev obs).
+Definition check_ls_result (r : ls_result) (jacfun_given : bool) (obs_jac_arg : ls_jac) (obs_x : list Q) (obs : ls_info) : bool :=
+  let '(mx, mi) := ls_result_translate r in
+  ql_eqb mx obs_x && Bool.eqb (lsi_success mi) (lsi_success obs) && String.eqb (lsi_message mi) (lsi_message obs) &&
+  ql_eqb (lsi_func mi) (lsi_func obs) && list_eqb ql_eqb (lsi_jac mi) (lsi_jac obs) && Z.eqb (lsi_nfev mi) (lsi_nfev obs) &&
+  ls_jac_eqb (ls_jac_arg jacfun_given) obs_jac_arg.
